@@ -216,8 +216,14 @@ func (lk *Link) refs(g *Graph, mod string, fn Item) []binding {
 			}
 		}
 		// the function value handed in by the caller (whatever module it comes from)
-		if g.Callback != "" {
+		if g.handsDown() {
 			out = append(out, binding{Item: Item{Name: "cb", Kind: "cb"}})
+		}
+		// the maker functions the module can see (its own first): what they return is called here
+		for _, k := range lk.visSeq[mod] {
+			if b := vis[k]; b.Item.Maker {
+				out = append(out, b)
+			}
 		}
 		// visible types, by name
 		var tk []string
@@ -318,6 +324,14 @@ func (lk *Link) Expected(g *Graph) string {
 				if r.Item.Kind == "cb" {
 					target = *cb
 				}
+				if r.Item.Maker {
+					// the value a maker returns stands for the private k of the maker's module
+					kb, ok := lk.vis[r.Origin][key(cbName, false)]
+					if !ok || kb.Origin != r.Origin {
+						panic("c15 model: module " + r.Origin + " has a maker but no function " + cbName)
+					}
+					target = kb
+				}
 				text, threw := call(target.Origin, target.Item, lk.passes(g, origin, fn, target.Item, cb))
 				if threw {
 					if g.Catch == "entry" {
@@ -364,7 +378,7 @@ func (lk *Link) Expected(g *Graph) string {
 // (fn's own parameter is cb): edge functions of a Callback graph are handed the private function k
 // as the calling module sees it, or - relay - what the calling edge function was handed itself.
 func (lk *Link) passes(g *Graph, mod string, fn Item, target Item, cb *binding) *binding {
-	if g.Callback == "" || !target.Edge {
+	if !g.handsDown() || !target.Edge {
 		return nil
 	}
 	if g.Callback == "relay" && fn.Edge && cb != nil {
